@@ -1,45 +1,131 @@
 ---------------------------- MODULE OrmManyToMany ----------------------------
-(* C37 on a bidirectional MANY-TO-MANY pair L.rs <-> R.ls (secondary table, back_populates, list collections), in memory.
-   coll[x] is the list held by x (x in Ls: its Rs; x in Rs: its Ls).  An operation on one list fires the backref on the other
-   object's list: append / insert -> append at the END of the partner's list; remove / pop -> remove from the partner's list;
-   bulk replace -> appends for the new members (in order), removes for the members that left.  Duplicate-free lists. *)
+(* A MANY-TO-MANY pair L.rs (<-> R.ls when Bidir) through a secondary table lr(l_id -> l.id, r_id -> r.id), list collections:
+   in-memory mutations from either side, session.delete() of an owner or member, flush, commit + reload - C37 (both lists agree, also
+   after flush and reload) and C30 (association rows after a flush = membership pairs of the in-memory graph over session members; no
+   association row references a row that is gone).
+
+   coll[x]   the list held by x (x in Ls: its Rs; x in Rs, only when Bidir: its Ls)        ccoll[x]  its committed members (history base)
+   life[x]   persistent | deleted (DELETE flushed, still the old Python object) | transient (fresh object after a reload: no row)
+   marked    session.deleted           rows, assoc   the database inside the session's transaction (entity rows, association pairs <<l, r>>)
+   Every object starts persistent and loaded (both collections); operations are enabled only between persistent objects.
+
+   In memory: an operation on one list fires the backref on the partner's list (Bidir): append / insert / setitem -> append at the END of
+   the partner's list (unconditionally); remove / pop / the displaced member of setitem -> remove (first occurrence) from the partner's
+   list; bulk replace -> appends for the new members in order, then removes for the members that left; an extended-slice assignment
+   (reverse) = one setitem per index, last index first.
+   Flush (_ManyToManyDP): for a saved owner INSERT the pairs of its added members and DELETE the pairs of its removed members (each pair
+   once even when both sides report it; members that are not in the session are skipped); for a DELETED owner DELETE the pairs of every
+   member it had at the last commit (history.non_added(): unchanged AND removed-since); then the entity rows are deleted.  A flush whose
+   resulting rows would leave an association row without its entity row fails with IntegrityError (foreign_keys=ON). *)
 EXTENDS Integers, Sequences, FiniteSets, TLC, Json
-CONSTANTS Ls, Rs, MaxDepth
+CONSTANTS Ls, Rs, Bidir, Acts, InitMode, MaxDepth
 VARIABLES st, last
 vars == <<st, last>>
 Objs == Ls \cup Rs
+LAll == <<"l1", "l2", "l3">>
+RAll == <<"r1", "r2", "r3">>
 Other(x) == IF x \in Ls THEN Rs ELSE Ls
+Owners == IF Bidir THEN Objs ELSE Ls
+Pair(x, y) == IF x \in Ls THEN <<x, y>> ELSE <<y, x>>
 Range(q) == {q[i] : i \in 1..Len(q)}
 RemoveOne(q, x) == IF x \notin Range(q) THEN q
                    ELSE LET i == CHOOSE i \in 1..Len(q) : q[i] = x /\ \A j \in 1..(i-1) : q[j] # x
                         IN SubSeq(q, 1, i - 1) \o SubSeq(q, i + 1, Len(q))
-InitSt == [coll |-> [x \in Objs |-> <<>>]]
-Link(s, x, y, front) == [s EXCEPT !.coll[x] = IF front THEN <<y>> \o @ ELSE Append(@, y),
-                                  !.coll[y] = IF x \in Range(@) THEN @ ELSE Append(@, x)]
-Unlink(s, x, y) == [s EXCEPT !.coll[x] = RemoveOne(@, y), !.coll[y] = RemoveOne(@, x)]
+\* ---------------------------------------------------------------- database -> freshly loaded session
+Loaded(rows, assoc) ==
+   [life |-> [x \in Objs |-> IF x \in rows THEN "persistent" ELSE "transient"],
+    coll |-> [x \in Objs |-> IF x \notin rows \/ x \notin Owners THEN <<>>
+                             ELSE IF x \in Ls THEN SelectSeq(RAll, LAMBDA r : r \in Rs /\ <<x, r>> \in assoc)
+                             ELSE SelectSeq(LAll, LAMBDA l : l \in Ls /\ <<l, x>> \in assoc)],
+    ccoll |-> [x \in Objs |-> IF x \notin rows \/ x \notin Owners THEN {}
+                              ELSE IF x \in Ls THEN {r \in Rs : <<x, r>> \in assoc} ELSE {l \in Ls : <<l, x>> \in assoc}],
+    marked |-> {}, rows |-> rows, assoc |-> assoc, dead |-> FALSE]
+\* initial association rows: "linked" = every l with r1, l1 additionally with every r;  "bare" = none
+LinkedAssoc == {<<l, "r1">> : l \in Ls} \cup {<<"l1", r>> : r \in Rs}
+InitStates == (IF InitMode \in {"linked", "both"} THEN {Loaded(Objs, LinkedAssoc)} ELSE {})
+              \cup (IF InitMode \in {"bare", "both"} THEN {Loaded(Objs, {})} ELSE {})
+Mem(s, x) == s.life[x] = "persistent"
+\* ---------------------------------------------------------------- in-memory list mutations (with backref when Bidir)
+BackAppend(s, y, x) == IF Bidir THEN [s EXCEPT !.coll[y] = Append(@, x)] ELSE s
+BackRemove(s, y, x) == IF Bidir THEN [s EXCEPT !.coll[y] = RemoveOne(@, x)] ELSE s
+Link(s, x, y, front) == BackAppend([s EXCEPT !.coll[x] = IF front THEN <<y>> \o @ ELSE Append(@, y)], y, x)
+Unlink(s, x, y) == BackRemove([s EXCEPT !.coll[x] = RemoveOne(@, y)], y, x)
 RECURSIVE AddAll(_, _, _)
-AddAll(s, x, q) == IF q = <<>> THEN s ELSE AddAll([s EXCEPT !.coll[Head(q)] = IF x \in Range(@) THEN @ ELSE Append(@, x)], x, Tail(q))
+AddAll(s, x, q) == IF q = <<>> THEN s ELSE AddAll(BackAppend(s, Head(q), x), x, Tail(q))
 RECURSIVE DropAll(_, _, _)
-DropAll(s, x, q) == IF q = <<>> THEN s ELSE DropAll([s EXCEPT !.coll[Head(q)] = RemoveOne(@, x)], x, Tail(q))
+DropAll(s, x, q) == IF q = <<>> THEN s ELSE DropAll(BackRemove(s, Head(q), x), x, Tail(q))
 DoReplace(s, x, new) ==
    LET old == s.coll[x]
        s1 == AddAll([s EXCEPT !.coll[x] = new], x, SelectSeq(new, LAMBDA y : y \notin Range(old)))
    IN DropAll(s1, x, SelectSeq(old, LAMBDA y : y \notin Range(new)))
+\* list.__setitem__(i, y): remove event for the member in the slot, append event for y, then the slot is overwritten
+SetItemAt(s, x, i, y) == LET e == s.coll[x][i] IN [BackAppend(BackRemove(s, e, x), y, x) EXCEPT !.coll[x] = [s.coll[x] EXCEPT ![i] = y]]
+RECURSIVE ReverseFrom(_, _, _, _)
+ReverseFrom(s, x, orig, k) == IF k > Len(orig) THEN s ELSE ReverseFrom(SetItemAt(s, x, Len(orig) - k + 1, orig[k]), x, orig, k + 1)
+\* ---------------------------------------------------------------- Session.delete / flush / commit + reload
+HAdded(s, x) == Range(s.coll[x]) \ s.ccoll[x]
+HDel(s, x) == s.ccoll[x] \ Range(s.coll[x])
+FlushCore(s) ==
+   LET saved == {x \in Owners : Mem(s, x) /\ x \notin s.marked}
+       ins == UNION {{Pair(x, y) : y \in {y \in HAdded(s, x) : Mem(s, y)}} : x \in saved}
+       del == UNION {{Pair(x, y) : y \in {y \in HDel(s, x) : Mem(s, y)}} : x \in saved}
+              \cup UNION {{Pair(x, y) : y \in {y \in s.ccoll[x] : Mem(s, y)}} : x \in s.marked \cap Owners}      \* history.non_added()
+       assoc2 == (s.assoc \cup ins) \ del
+       rows2 == s.rows \ s.marked
+       sound == \A p \in assoc2 : p[1] \in rows2 /\ p[2] \in rows2
+       dml == {<<"INSERT", "lr", p[1], p[2]>> : p \in ins \ del} \cup {<<"DELETE", "lr", p[1], p[2]>> : p \in del}
+              \cup {<<"DELETE", "x", x, "-">> : x \in s.marked}
+       s2 == [s EXCEPT !.assoc = assoc2, !.rows = rows2, !.marked = {},
+                       !.life = [x \in Objs |-> IF x \in s.marked THEN "deleted" ELSE s.life[x]],
+                       !.ccoll = [x \in Objs |-> IF x \in saved THEN Range(s.coll[x]) ELSE s.ccoll[x]]]
+   IN IF sound THEN [st |-> s2, ret |-> "ok", dml |-> dml] ELSE [st |-> [s EXCEPT !.dead = TRUE], ret |-> "IntegrityError", dml |-> {}]
+\* ---------------------------------------------------------------- actions
+DeadSt == [Loaded({}, {}) EXCEPT !.dead = TRUE]
+Step(name, arg, res, dml) == \E r \in {res} : \E d \in {dml} :
+      /\ st' = (IF r.st.dead THEN DeadSt ELSE r.st)
+      /\ last' = [a |-> name, arg |-> arg, ret |-> r.ret, dml |-> d]
+Ok(s) == [st |-> s, ret |-> "ok"]
+Enabled(a) == a \in Acts /\ ~st.dead
+\* list operations need a persistent owner whose current members are all persistent; new members must be persistent too
+Usable(x) == x \in Owners /\ Mem(st, x) /\ \A y \in Range(st.coll[x]) : Mem(st, y)
 Seqs2(S) == ({<<>>} \cup {<<a>> : a \in S} \cup {<<a, b>> : a \in S, b \in S}) \ {<<a, a>> : a \in S}
-Step(name, arg, s) == st' = s /\ last' = [a |-> name, arg |-> arg, ret |-> "ok"]
-AppendA == \E x \in Objs : \E y \in Other(x) : y \notin Range(st.coll[x]) /\ Step("Append", <<x, y>>, Link(st, x, y, FALSE))
-InsertA == \E x \in Objs : \E y \in Other(x) : y \notin Range(st.coll[x]) /\ Len(st.coll[x]) > 0 /\ Step("Insert", <<x, y>>, Link(st, x, y, TRUE))
-RemoveA == \E x \in Objs : \E y \in Range(st.coll[x]) : Step("Remove", <<x, y>>, Unlink(st, x, y))
-PopA == \E x \in Objs : Len(st.coll[x]) > 0 /\ Step("Pop", <<x>>, Unlink(st, x, st.coll[x][Len(st.coll[x])]))
-ReplaceA == \E x \in Objs : \E q \in Seqs2(Other(x)) : q # st.coll[x] /\ Step("Replace", <<x>> \o q, DoReplace(st, x, q))
-Init == st = InitSt /\ last = [a |-> "init", arg |-> <<>>, ret |-> "ok"]
-Next == AppendA \/ InsertA \/ RemoveA \/ PopA \/ ReplaceA
+AppendA == Enabled("Append") /\ \E x \in Objs : Usable(x) /\ \E y \in Other(x) : Mem(st, y) /\ y \notin Range(st.coll[x])
+              /\ Step("Append", <<x, y>>, Ok(Link(st, x, y, FALSE)), {})
+InsertA == Enabled("Insert") /\ \E x \in Objs : Usable(x) /\ Len(st.coll[x]) > 0 /\ \E y \in Other(x) : Mem(st, y) /\ y \notin Range(st.coll[x])
+              /\ Step("Insert", <<x, y>>, Ok(Link(st, x, y, TRUE)), {})
+RemoveA == Enabled("Remove") /\ \E x \in Objs : Usable(x) /\ \E y \in Range(st.coll[x]) : Step("Remove", <<x, y>>, Ok(Unlink(st, x, y)), {})
+PopA == Enabled("Pop") /\ \E x \in Objs : Usable(x) /\ Len(st.coll[x]) > 0 /\ Step("Pop", <<x>>, Ok(Unlink(st, x, st.coll[x][Len(st.coll[x])])), {})
+ReplaceA == Enabled("Replace") /\ \E x \in Objs : Usable(x) /\ \E q \in Seqs2({y \in Other(x) : Mem(st, y)}) : q # st.coll[x]
+              /\ Step("Replace", <<x>> \o q, Ok(DoReplace(st, x, q)), {})
+SetItemA == Enabled("SetItem") /\ \E x \in Objs : Usable(x) /\ \E i \in 1..Len(st.coll[x]) : \E y \in Other(x) :
+              Mem(st, y) /\ (y = st.coll[x][i] \/ y \notin Range(st.coll[x])) /\ Step("SetItem", <<x, i - 1, y>>, Ok(SetItemAt(st, x, i, y)), {})
+ReverseA == Enabled("Reverse") /\ \E x \in Objs : Usable(x) /\ Len(st.coll[x]) >= 2
+              /\ Step("Reverse", <<x>>, Ok(ReverseFrom(st, x, st.coll[x], 1)), {})
+DeleteA == Enabled("Delete") /\ \E x \in Objs : Mem(st, x) /\ x \notin st.marked /\ Step("Delete", <<x>>, Ok([st EXCEPT !.marked = @ \cup {x}]), {})
+FlushA == Enabled("Flush") /\ \E f \in {FlushCore(st)} : Step("Flush", <<>>, [st |-> f.st, ret |-> f.ret], f.dml)
+CommitReloadA == Enabled("CommitReload") /\ \E f \in {FlushCore(st)} :
+              Step("CommitReload", <<>>, [st |-> IF f.st.dead THEN f.st ELSE Loaded(f.st.rows, f.st.assoc), ret |-> f.ret], f.dml)
+Init == st \in InitStates /\ last = [a |-> "init", arg |-> <<>>, ret |-> "ok", dml |-> {}]
+Next == AppendA \/ InsertA \/ RemoveA \/ PopA \/ ReplaceA \/ SetItemA \/ ReverseA \/ DeleteA \/ FlushA \/ CommitReloadA
 Spec == Init /\ [][Next]_vars
 View == st
-Emit == PrintT(ToJson([from |-> st, act |-> last', to |-> st']))
+Hist(s) == [x \in Owners |-> <<HAdded(s, x), Range(s.coll[x]) \cap s.ccoll[x], HDel(s, x)>>]
+Emit == PrintT(ToJson([from |-> st, act |-> last', to |-> st', obs |-> [hist |-> Hist(st')]]))
 InitEmit == Init /\ PrintT(ToJson([init |-> st]))
 Depth == TLCGet("level") <= MaxDepth
-\* C37: r is in l.rs exactly when l is in r.ls
-BothSidesMM == \A l \in Ls, r \in Rs : (r \in Range(st.coll[l])) <=> (l \in Range(st.coll[r]))
+\* ================================================================ properties
+\* C37: r is in l.rs exactly when l is in r.ls - after every mutation, after flush, after commit + reload
+BothSidesMM == Bidir => \A l \in Ls, r \in Rs : (r \in Range(st.coll[l])) <=> (l \in Range(st.coll[r]))
 NoDuplicates == \A x \in Objs : Len(st.coll[x]) = Cardinality(Range(st.coll[x]))
+\* C30: after a successful flush the entity rows are the session's members and the association rows are exactly the membership pairs
+\* of the in-memory graph between members
+Flushed == last.a \in {"Flush", "CommitReload"} /\ last.ret = "ok" /\ ~st.dead
+RowsEqualGraphMM == Flushed =>
+      /\ st.rows = {x \in Objs : Mem(st, x)}
+      /\ st.assoc = {p \in Ls \X Rs : Mem(st, p[1]) /\ Mem(st, p[2]) /\ p[2] \in Range(st.coll[p[1]])}
+      /\ st.marked = {}
+\* no association row references an entity row that is gone - in every state
+FkSoundMM == \A p \in st.assoc : p[1] \in st.rows /\ p[2] \in st.rows
+\* rows change only when the unit of work writes them
+RowsOnlyAtFlush == [][last'.a \notin {"Flush", "CommitReload"} => (st'.rows = st.rows /\ st'.assoc = st.assoc /\ st'.ccoll = st.ccoll)]_vars
 =============================================================================
